@@ -97,8 +97,18 @@ def run(check_id: str, tier: str, seed: int, workers: int) -> int:
             results = pool.map(_run_shard, jobs, chunksize=1)
     broken = [r for r in results if "broken" in r]
     if broken:
+        tb = broken[0]["broken"]
+        if "/fuzzylite/" in tb:
+            # the implementation raised outside any per-case guard (e.g. while the harness was building its
+            # fixture through the public API): on a tree where the property holds this does not happen
+            path = write_replay(prop, {"property": prop, "sig": {"kind": "crash"}, "case": {"shard": broken[0]["shard"]},
+                                       "expected": "no exception", "actual": tb.strip().splitlines()[-1],
+                                       "message": "the library raised while the harness drove it", "traceback": tb})
+            print(f"VIOLATION property={prop} replay={path}")
+            print("  " + tb.strip().splitlines()[-1])
+            return 1
         print(f"BROKEN-CHECK property={prop}: a shard crashed ({broken[0]['shard']})")
-        print(broken[0]["broken"])
+        print(tb)
         return 2
     merged = explore.merge(results)
     summary = mod.summarize(tier, seed, merged)
